@@ -59,6 +59,12 @@ def gen_tree(rng, scratch: str) -> typing.Tuple[Tree, typing.List[bytes], typing
     t.file(pre + b".names", "Path=./meta-one.txt\nName=Renamed Inside\nNumb=1\n\nPath=./meta-two.txt\nType=X\n")
     t.file(pre + b".Links", "Name=Remote from archive\nType=1\nPath=/r\nHost=h.example.org\nPort=70\n")
     t.file(pre + b".cap/meta-one.txt", "Abstract=cap abstract\n")
+    # metadata files holding bytes that are not valid UTF-8 (read with surrogateescape on disk)
+    t.file(b"latin-dir/doc.txt", "doc\n")
+    t.file(b"latin-dir/doc.txt.abstract", b"caf\xe9 abstract \xff\xfe\nsecond l\xefne")
+    t.file(b"latin-dir/.abstract", b"R\xe9sum\xe9 of the directory")
+    t.file(b"latin-dir/.names", b"Path=./doc.txt\nName=Renamed caf\xe9\nNumb=1\n")
+    t.file(b"latin-dir/.cap/doc.txt", b"Abstract=cap caf\xe9\n")
     t.file(b"mapped-dir/gophermap", "Hello from a gophermap\n0A file\tfile.txt\n1Remote\t/x\thost.example\t70\n")
     t.file(b"mapped-dir/file.txt", "mapped\n")
     t.dir(b"empty-dir")                       # explicit directory members without anything below them
